@@ -356,6 +356,46 @@ def judge_broken(idx: int, res: Dict[str, Any]) -> None:
         res['violations'].append(core.violation(f'aborts/hang/unparsable:{where}', f'[unparsable module, {label}] hang', case))
 
 
+# ---- the terminal: a run whose messages hold characters the output stream cannot encode (a real process: the stream is the seam)
+
+STDOUT_ENCODINGS = ['ascii', 'latin-1', 'cp1252', 'utf-8', 'utf-16', 'cp437', 'ascii:strict', 'ascii:replace']
+TERMINAL_FILES = {
+    'pk/__init__.py': 'TQPaquet \u00e9t\u00e9 \u2603.TQ\n',
+    'pk/m.py': 'def caf\u00e9(a):\n    TQSee L{na\u00efve} and B{unclosed \u2603.\n\n    @param z\u00fc: nothing \u4e2d\n    TQ\nclass \u00dc:\n    "\u00fc doc `x"\nX = "\u2028"\n',
+    'pk/\u00e9t\u00e9.py': 'x = "\u00e9\n',
+    'pk/r.py': '__docformat__ = "restructuredtext"\ndef g():\n    TQText \u2603 *unclosed.\n\n    :param \u00fc: no such\n    TQ\n',
+}
+TERMINAL_FILES = {k: v.replace('TQ', '"' * 3) for k, v in TERMINAL_FILES.items()}
+
+
+def judge_terminal(enc: str, verbosity: str, res: Dict[str, Any]) -> None:
+    import subprocess
+    import sys as _sys
+    repo = os.environ.get('VERIF_REPO', '/repo')
+    res['evals'] += 1
+    res['nontrivial'].add(core.h('terminal', enc, verbosity))
+    case = {'kind': 'terminal', 'enc': enc, 'verbosity': verbosity}
+    with pd.scratch('c01t') as d:
+        pd.write_tree(d, TERMINAL_FILES)
+        env = dict(os.environ, PYTHONIOENCODING=enc, PYTHONPATH=repo, PYTHONDONTWRITEBYTECODE='1')      # (the file system encoding stays as it is: only the stream varies)
+        args = [_sys.executable, '-m', 'pydoctor', '--html-output', str(d / 'out'), '--project-base-dir', str(d)] + ([verbosity] if verbosity else []) + [str(d / 'pk')]
+        try:
+            r = subprocess.run(args, env=env, cwd=str(d), capture_output=True, timeout=RUN_TIMEOUT)
+        except subprocess.TimeoutExpired:
+            res['violations'].append(core.violation(f'aborts/hang/terminal:{enc.split(":")[0]}', f'[terminal encoding {enc} {verbosity}] hang', case))
+            return
+        core.bump(res, 'driver_runs')
+        err = r.stderr.decode('utf-8', 'replace')
+        if r.returncode not in (0, 2, 3) or 'Traceback (most recent call last)' in err:
+            last = [l for l in err.strip().splitlines() if l.strip()][-1:] or ['']
+            res['violations'].append(core.violation(f'aborts/{last[0].split(":")[0][:40]}/terminal:{enc.split(":")[0]}',
+                                                    f'[stdout encoding {enc}, {verbosity or "default verbosity"}] exit status {r.returncode}; {err[-600:]}', case))
+            return
+        for f in ('index.html', 'pk.m.html', 'objects.inv', 'searchindex.json'):
+            if not (d / 'out' / f).exists():
+                res['violations'].append(core.violation(f'output-missing/terminal:{enc.split(":")[0]}', f'[stdout encoding {enc}] {f} not written', case))
+
+
 # ---- whole projects (the feature projects of the site checks) x option variants: no option turns a fine run into an aborted one
 
 OPTION_VARIANTS: Dict[str, List[str]] = {
@@ -415,6 +455,8 @@ def jobs(tier: str) -> Iterable[Tuple[str, Any]]:
     nb = len(broken_projects())
     for i in range(0, nb, 60):
         yield ('unparsable-module-x-importers', ('broken', i, min(nb, i + 60)))
+    for enc in STDOUT_ENCODINGS:
+        yield ('terminal-encodings', ('terminal', enc))
     from mc import site
     for f in site.NAMES:
         if f != 'many-mods':
@@ -442,6 +484,9 @@ def run_job(job: Any, tier: str) -> Dict[str, Any]:
     elif job[0] == 'broken':
         for i in range(job[1], job[2]):
             judge_broken(i, res)
+    elif job[0] == 'terminal':
+        for verbosity in ('', '-v', '-vv', '-q'):
+            judge_terminal(job[1], verbosity, res)
     elif job[0] == 'project-options':
         judge_project_options(job[1], res)
     elif job[0] == 'pairs':
@@ -483,6 +528,8 @@ def replay(case: Dict[str, Any]) -> List[Dict[str, Any]]:
         judge_file_item(case['item'], case['fmt'], res)
     elif case['kind'] == 'roots':
         judge_roots(case['item'], case['fmt'], res)
+    elif case['kind'] == 'terminal':
+        judge_terminal(case['enc'], case['verbosity'], res)
     elif case['kind'] == 'broken':
         idx = [l for l, _ in broken_projects()].index(case['label'])
         judge_broken(idx, res)
